@@ -30,7 +30,9 @@ def short_tupleu(t, d, fam, depth=0) -> bool:
     if k == "opt":
         return d is not None and short_tupleu(t.args[0], d, fam, depth + 1)
     if k in ("data", "td") and isinstance(d, dict):
-        return any(f.name in d and short_tupleu(f.ty, d[f.name], fam, depth + 1) for f in fam.get(t.name).fields)
+        # a dataclass field may arrive under its alias (serialize_by_alias / allow_deserialization_not_by_alias)
+        return any(key in d and short_tupleu(f.ty, d[key], fam, depth + 1)
+                   for f in fam.get(t.name).fields for key in ([f.name] + ([f.alias] if getattr(f, "alias", None) else [])))
     if k == "nt" and isinstance(d, (list, tuple, str)):
         return any(short_tupleu(f.ty, x, fam, depth + 1) for f, x in zip(fam.get(t.name).fields, d))
     return False
